@@ -190,6 +190,7 @@ class Translator:
         self.seeded_draws: List[Any] = []
         self._fresh = 0
         self.notes: List[str] = []
+        self.int_ranges: Dict[str, Tuple[int, int]] = {}  # name of a symbolic Int -> (lo, hi) it is ASSUMED to lie in (C07)
 
     # ------------------------------------------------------------------ class model
     def _mro(self, cls: str) -> List[str]:
@@ -313,6 +314,43 @@ class Translator:
     def call(self, obj: SymObj, *args: Any, **kwargs: Any) -> List[Tuple[Path, Any]]:
         """obj(*args, **kwargs) — every path with its condition, side conditions and value."""
         return self.call_method(obj, "__call__", list(args), dict(kwargs))
+
+    def call_function(self, name: str, *args: Any, **kwargs: Any) -> Any:
+        """Evaluate a module-level function of the current source (e.g. ``wait_full_jitter``) that returns one value."""
+        if name not in self.funcs:
+            raise Untranslatable(f"unknown function {name}")
+        f = self.funcs[name]
+        return self._only_plain(self.run_function(f, self._bind(f, list(args), dict(kwargs), ""), ""), name)
+
+    def declare_int_range(self, k: Any, lo: int, hi: int) -> None:
+        """State that the symbolic Int ``k`` lies in lo..hi (the query must carry the same assumption): ``x ** k`` is then
+        translated as the exact case table  k==lo -> x**lo, ..., k==hi -> x**hi."""
+        if not (is_z3(k) and z3.is_int(k) and z3.is_const(k)) or lo < 0 or hi < lo:
+            raise Untranslatable("declare_int_range: a symbolic Int constant and 0 <= lo <= hi are required")
+        self.int_ranges[str(k)] = (lo, hi)
+
+    def power(self, a: Any, b: Any) -> Any:
+        """Exact value of the float power ``a ** b`` as a Real term (no side condition added here).  a: Real term or a
+        concrete float/Fraction; b: concrete non-negative int, or a symbolic Int with a declared range."""
+        if isinstance(a, bool) or (isinstance(a, int) and not isinstance(a, bool)) or (is_z3(a) and z3.is_int(a)):
+            raise Untranslatable("int-typed base of ** (Python ints do not overflow)")
+
+        def one(j: int) -> Any:
+            if is_z3(a):
+                return _pw(a, j)
+            return z3.RealVal(str(Fraction(a) ** j))
+
+        if isinstance(b, int) and not isinstance(b, bool):
+            if b < 0:
+                raise Untranslatable("** with a negative exponent")
+            return one(b)
+        if is_z3(b) and z3.is_int(b) and str(b) in self.int_ranges:
+            lo, hi = self.int_ranges[str(b)]
+            t = one(hi)
+            for j in range(hi - 1, lo - 1, -1):
+                t = z3.If(b == j, one(j), t)
+            return t
+        raise Untranslatable("** with a non-concrete exponent of undeclared range")
 
     # ------------------------------------------------------------------ statements
     def _block(self, stmts: List[ast.stmt], env: Dict[str, Any], path: Path, owner: str):
@@ -598,6 +636,10 @@ class Translator:
         if not (is_num(a) and is_num(b)):
             raise Untranslatable(f"arithmetic on {a!r}, {b!r}")
         if isinstance(op, ast.Pow):
+            if is_z3(b) and z3.is_int(b) and str(b) in self.int_ranges:
+                t = self.power(a, b)  # exact case table over the declared range of the exponent
+                path.side.append(("pow", finite(t)))
+                return t
             if isinstance(b, bool) or not isinstance(b, int) or b < 0:
                 raise Untranslatable("** with a non-concrete or negative exponent")
             if not is_z3(a):
@@ -968,7 +1010,7 @@ def build_from_ast(tr: Translator, node: ast.expr) -> Tuple[Any, Any]:
     return go(node)
 
 
-def validate_on_package_tests(tr: Translator, only: Optional[Tuple[str, ...]] = None) -> Dict[str, int]:
+def validate_on_package_tests(tr: Translator, only: Optional[Tuple[str, ...]] = None, skip_module_reads: bool = False) -> Dict[str, int]:
     """Translation validation: for each (ctor, attempts[, seed]) literal of the package tests, the encoding evaluated
     concretely must agree with the real object in CPython (relative 1e-9; seeded draws are matched by feeding the real
     ``random.Random(seed).uniform`` value into U).  Raises RuntimeError on a mismatch."""
@@ -990,7 +1032,11 @@ def validate_on_package_tests(tr: Translator, only: Optional[Tuple[str, ...]] = 
             n_skip += 1  # unseeded jitter: no deterministic native value to compare with
             continue
         mark = len(tr.seeded_draws)
+        mark_m = len(tr.module_draws)
         summ = CallSummary(tr.call(tobj, k, seed=(None if seed is None else z3.IntVal(seed))))
+        if skip_module_reads and len(tr.module_draws) > mark_m:
+            n_skip += 1  # (C07) a seeded call that reads the module-level generator has no value to validate against: the
+            continue     # determinism obligations report it; it must not surface as an encoding error
         got = z3.simplify(summ.value)
         # resolve U(seed, i, a, b) applications with the real generator
         for u in tr.seeded_draws[mark:]:
@@ -1327,6 +1373,31 @@ class RandomExpSpec(Spec):
 
     def bounds(self, k, P):
         return self.p(P, "min"), self.upper(k, P)
+
+
+class NoneSpec(Spec):
+    """'Wait strategy that does not delay retries' (C07)."""
+
+    name = "wait_none"
+    params: List[str] = []
+
+    def ref(self, j, P, seed, U):
+        return z3.RealVal(0)
+
+    def ref_native(self, j, V, seed, draw=None):
+        return 0.0
+
+    def bounds(self, k, P):
+        return z3.RealVal(0), z3.RealVal(0)
+
+
+class FullJitterSpec(RandomExpSpec):
+    """``wait_full_jitter(...)``: a module-level FUNCTION documented as an alias of wait_random_exponential (C07)."""
+
+    name = "wait_full_jitter"
+
+    def build(self, tr, P):
+        return tr.call_function(self.name, **self.kwargs(P))
 
 
 class ChainSpec(Spec):
